@@ -8,6 +8,27 @@ import os
 HERE = os.path.dirname(os.path.dirname(os.path.abspath(__file__)))
 
 CLAIMED = {
+    'C18': dict(
+        category='other',
+        text='Resolved C++ program (cplusplus/xraylib++.h plus a generated unit that instantiates every wrapper template with '
+             'exactly the parameter types of the C function of the same name - 118 instantiations, must compile): each of the 138 '
+             'wrapper bodies is walked symbolically and must make one call to the C function it is named after, forward its '
+             'parameters one-to-one and in order (std::string as c_str(), Struct methods pass their own C object, nullptr selects '
+             'the built-in crystal array), pass the address of a local xrl_error* that is nullptr, call _process_error(error) as '
+             'the very next step, and return the C result unchanged / as std::complex(re, im) / as std::string followed by '
+             'xrlFree / as the wrapper class followed by the C destructor of that struct / as a vector of all n strings each '
+             'released; _process_error returns iff the error is null, maps MEMORY -> bad_alloc, INVALID_ARGUMENT -> '
+             'invalid_argument(message), every other code -> runtime_error(message) and frees the error after copying code and '
+             'message; the 5 POD -> class conversions initialise every member from the same-named C field and every array from '
+             'its own count; Crystal::Struct owns a C object in each of its 3 constructors, deep-copies on copy, cannot be '
+             'assigned, frees in the destructor; all members are values (objects outlive the C originals); every error-reporting '
+             'C API function has a wrapper (3 documented exceptions).',
+        design_ref='DESIGN.md section 2, C18',
+        note='Decided: the structural necessary and sufficient conditions on each wrapper body. Not decided: overload resolution '
+             'for user argument types other than the C ones, standard-library behaviour, exceptions thrown by the standard '
+             'library between obtaining and releasing a C object. Fixed on this tree: F4 (_process_error leaked the error).',
+        technique='symbolic walk of resolved wrapper bodies incl. template instantiations; compile witness; ownership typestate',
+    ),
     'C20': dict(
         category='proof',
         text='Exhaustive static comparison: every constant (~9 600 binding/name pairs) and every foreign prototype '
